@@ -203,6 +203,18 @@ def _install_wrappers():
 
     Blotter.process_closed_market = blotter_pcm
 
+    Market = F["flumine"].markets.market.Market
+    orig_mcall = Market.__call__
+
+    def market_call(self, market_book):
+        r = orig_mcall(self, market_book)
+        run = CUR
+        if run is not None:
+            run.held[self.market_id] = run.pt_index.get(self.market_id, {}).get(market_book.publish_time_epoch)
+        return r
+
+    Market.__call__ = market_call
+
     BF = F["BaseFlumine"]
     orig_close = BF._process_close_market
 
@@ -356,6 +368,18 @@ def make_agent_class():
         def _do(self, market, txn, a):
             run = self.run
             op = a["op"]
+            if "mkt" in a:
+                # request on another market of the run (falls between two updates of that market)
+                other = run.scenario["markets"][a["mkt"]]["id"] if a["mkt"] < len(run.scenario["markets"]) else None
+                target = run.fw.markets.markets.get(other)
+                if target is None or target.market_book is None:
+                    run.res.probes["agent.dangling"] += 1
+                    return
+                if target is not market:
+                    self._sync(target)
+                    if txn is market:
+                        txn = target
+                    market = target
             try:
                 if op == "txn":
                     t = market.transaction(client=self._client())
@@ -549,7 +573,12 @@ def sut_site(exc_info):
     while tb is not None:
         fn = tb.tb_frame.f_code.co_filename
         if fn.startswith(root):
-            site = (fn[len(root):], tb.tb_frame.f_code.co_name)
+            cand = (fn[len(root):], tb.tb_frame.f_code.co_name)
+            # an exception below an execute_* handler belongs to that handler (it strands the package)
+            if site is not None and site[0].startswith("execution/") and site[0] != "execution/transaction.py" and site[1].startswith("execute_"):
+                pass
+            else:
+                site = cand
         tb = tb.tb_next
     return site
 
@@ -567,7 +596,9 @@ class BacktestRun:
         self.cur_update = {}  # market_id -> abstract update being processed
         self.cur_index = {}  # market_id -> index j being processed
         self.cur_pt = {}
-        self.last_delivered = {}  # market_id -> index of the book flumine currently holds
+        self.last_delivered = {}  # market_id -> index of the last update fully processed
+        self.held = {}  # market_id -> index of the update whose book flumine's Market object holds
+        self.now_ms = None  # simulated time (publish time of the update being processed)
         self.markets_by_id = {m["id"]: m for m in scenario["markets"]}
         self.pt_index = {
             m["id"]: {u["pt"]: j for j, u in enumerate(m["updates"])} for m in scenario["markets"]
@@ -624,9 +655,17 @@ class BacktestRun:
         j = self.pt_index.get(mid, {}).get(mb.publish_time_epoch)
         self.cur_index[mid] = j
         self.cur_pt[mid] = mb.publish_time_epoch
+        self.now_ms = mb.publish_time_epoch
         self.cur_update[mid] = self.markets_by_id[mid]["updates"][j] if j is not None else None
         self.update_log.append((mid, mb.publish_time_epoch))
         _dispatch("update_start", mid, j, mb)
+
+    def held_state(self, mid):
+        """Generator's own book for the update whose MarketBook flumine currently holds for `mid`."""
+        j = self.held.get(mid)
+        if j is None:
+            return None
+        return self.markets_by_id[mid]["updates"][j]
 
     def _update_end(self, mb):
         mid = mb.market_id
